@@ -403,6 +403,64 @@ func resBody(name string, kind string, writes []string, subs []subSpec) func() {
 	}
 }
 
+// lostRaceBody: two writers at once (one of them may lose the race for the resource and come back Aborted), then the
+// resource is used like on any other day: a subscription opens, gets its seed, is cancelled and closes; one more write
+// goes through. Whatever a write that did not take place held while it tried is released.
+func lostRaceBody(name string, coll bool) func() {
+	return func() {
+		var val *resource.Value
+		var col *resource.Collection
+		write := func(k int) error {
+			var err error
+			if coll {
+				_, err = col.Update("a", msg(k))
+			} else {
+				_, err = val.Set(msg(k))
+			}
+			return err
+		}
+		if coll {
+			col = resource.NewCollection(resource.WithInitialRecord("a", msg(0)))
+		} else {
+			val = resource.NewValue(resource.WithInitialValue(msg(0)))
+		}
+		var wg sync.WaitGroup
+		errs := make([]error, 2)
+		for w := 0; w < 2; w++ {
+			w := w
+			wg.Add(1)
+			go func() { defer wg.Done(); errs[w] = write(w + 1) }()
+		}
+		wg.Wait()
+		ctx, cancel := context.WithCancel(context.Background())
+		seeded, closed := false, false
+		var probe func() bool
+		if coll {
+			ch := col.Pull(ctx, resource.WithBackpressure(true))
+			probe = func() bool { return drainClosed(ch) }
+			_, seeded = <-ch
+		} else {
+			ch := val.Pull(ctx, resource.WithBackpressure(true))
+			probe = func() bool { return drainClosed(ch) }
+			_, seeded = <-ch
+		}
+		cancel()
+		verifrt.WaitIdle()
+		closed = probe()
+		if !seeded || !closed {
+			verifrt.Logf("FAIL after-lost-race %s ## after two concurrent writes (%v, %v) a new subscription: seeded=%v, closed after cancel=%v", name, errs[0], errs[1], seeded, closed)
+		}
+		if err := write(9); err != nil {
+			verifrt.Logf("FAIL after-lost-race-write %s ## a write after two concurrent writes (%v, %v) returned %v", name, errs[0], errs[1], err)
+		}
+		verifrt.WaitIdle()
+		if a := verifrt.Alive(); len(a) > 0 {
+			verifrt.Logf("FAIL goroutine-left %s ## %v", name, a)
+		}
+		verifrt.Logf("OUT errs=%v,%v", errs[0] != nil, errs[1] != nil)
+	}
+}
+
 // ---------------------------------------------------------------- harness C: a trait model's forwarder
 
 // modelKind: one trait model seen as "open a Pull, receive from it, write to it"
@@ -566,6 +624,10 @@ func main() {
 		res("value", -2, -1, []string{"set", "set"}, subSpec{kind: "value", backpressure: bp, abandon: -1, cancel: true}, subSpec{kind: "value", backpressure: !bp, abandon: 1})
 		res("coll", -2, -1, []string{"upd", "updb", "del"}, subSpec{kind: "coll", backpressure: bp, abandon: -1, cancel: true})
 		res("coll", -2, -1, []string{"upd", "del", "upd"}, subSpec{kind: "id", backpressure: bp, abandon: -1}, subSpec{kind: "coll", backpressure: !bp, abandon: 1})
+	}
+	for _, coll := range []bool{false, true} {
+		name := fmt.Sprintf("two concurrent writes, then subscribe, cancel, write/collection=%v", coll)
+		h.Sched(name, -1, -1, lostRaceBody(name, coll), hx.StdOracle)
 	}
 	for _, kind := range modelKinds {
 		for _, bp := range []bool{true, false} {
